@@ -2,7 +2,9 @@
 import Frugal.Proofs.DecodeRefine
 import Frugal.Proofs.ReaderProps
 import Frugal.Proofs.ReadTyped
-import Frugal.Props.Instances
+import Frugal.Props.Inst.Params
+import Frugal.Props.Inst.F_skeleton_decoder
+import Frugal.Props.Inst.F_valid_minWire
 namespace Frugal.C03
 open Frugal
 
